@@ -2,13 +2,13 @@
 //! of the monitors' workloads with the same oracles inside. A confirmed report is a violation of
 //! the property whose workload triggered it; an unconfirmed one makes the run inconclusive.
 
-use crate::framework::{LaneResult, VERIF_DIR};
+use crate::framework::{out_dir, root_dir, LaneResult};
 use serde_json::{json, Value};
 use std::path::{Path, PathBuf};
 use std::process::{Command, Stdio};
 
 fn harness_dir() -> PathBuf {
-    Path::new(VERIF_DIR).join("harness")
+    root_dir().join("harness")
 }
 
 fn excerpt(s: &str, needle: &[&str]) -> String {
@@ -64,7 +64,7 @@ pub fn miri_lane(prop: &str, name: &str, seeds: &[u64], many_seeds: Option<&str>
                 "sig": format!("miri:{}:{}", name, first_frame(&rep)),
                 "detail": format!("Miri report while running mini workload {name} seed {seed}:\n{rep}"),
                 "case_id": seed,
-                "replay": {"kind":"miri","prop":prop,"workload":name,"seed":seed,"cmd":format!("cd /verif/harness && MIRIFLAGS='{flags}' cargo +nightly miri run --offline --target-dir target-miri -- mini {name} {seed}")},
+                "replay": {"kind":"miri","prop":prop,"workload":name,"seed":seed,"cmd":format!("cd <root>/harness && MIRIFLAGS='{flags}' cargo +nightly miri run --offline --target-dir target-miri -- mini {name} {seed}")},
             }));
         } else if so.contains("MINI VIOLATION") {
             let l = so.lines().find(|l| l.contains("MINI VIOLATION")).unwrap_or("");
@@ -104,7 +104,7 @@ pub fn worker_lane(lane: &str, bin: &str, prop: &str, seed: u64, shards: u64, se
         lr.inconclusive.push(format!("{lane} binary {bin} missing"));
         return lr;
     }
-    let scratch = Path::new(VERIF_DIR).join("scratch").join(format!("{lane}-{prop}-{}", std::process::id()));
+    let scratch = out_dir().join("scratch").join(format!("{lane}-{prop}-{}", std::process::id()));
     let _ = std::fs::create_dir_all(&scratch);
     let mut children = vec![];
     for i in 0..shards {
